@@ -3,7 +3,7 @@ sys.path.insert(0, os.path.dirname(os.path.abspath(__file__)))
 from _util import c
 
 CHECKS = {
-    "C26": c("rewards", "TestC26", dict(checks=6000, timeout=300), dict(checks=30000, shards=14, timeout=1500),
+    "C26": c("rewards", "TestC26", dict(checks=5000, timeout=300), dict(checks=30000, shards=14, timeout=1500),
              technique="property-based testing (rapid) of the real auth/nodes/gov keepers against an integer (math/big) model of the "
                        "reward, delegator and fee splits; conservation recomputed from raw account state",
              design_ref="DESIGN.md §7 C26",
